@@ -205,3 +205,41 @@ class MakeNode(Contract):
         s_exc = st.clone()
         eng.throw(s_exc, 'pybind11::error_already_set', line, 'from a constructor / unflatten function')
         return [(st, PyObj(fresh('made_node', Ref), fresh=True))]
+
+
+@contract
+class WalkImpl(AgendaWalk):
+    name = 'optree::PyTreeSpec::WalkImpl'
+    props = ('C05', 'C16', 'C15')
+    template_instances = [{'PassRawNode': True}, {'PassRawNode': False}]
+
+    def __init__(self):
+        self.loops = {0: Loop(self.base_inv, index='node__idx', hints=UnflattenImpl.hints.__get__(self),
+                              decreases=lambda cx: cx.this_vec(cx.entry).len - cx.var('node__idx')),
+                      1: Loop(self.inner_inv, decreases=lambda cx: cx.var('i') + 1)}
+
+    def inner_inv(self, cx):
+        v = self.views['this']
+        idx = cx.var('node__idx')
+        A = v.A(idx)
+        i = cx.var('i')
+        agenda = cx.obj(cx.var('agenda'))
+        return [('i-range', z3.And(-1 <= i, i < A)),
+                ('agenda-height', agenda.len == self.F(idx) - (A - 1 - i)),
+                ('enough-children-left', agenda.len >= i + 1)]
+
+    def symbolic_param(self, eng, st, p):
+        if p.name == 'leaves':
+            return PyObj(z3.Const('leaves', Ref))
+        return super().symbolic_param(eng, st, p)
+
+    def post(self, cx, ret):
+        v = self.views['this']
+        n = v.v.len
+        return [('consumed-exactly-num_leaves-leaves', M.iter_len(cx.old('leaves').ref) == v.NL(n - 1))]
+
+    def raises(self, cx):
+        v = self.views['this']
+        n = v.v.len
+        return {'pybind11::value_error': M.iter_len(cx.old('leaves').ref) != v.NL(n - 1),
+                'pybind11::error_already_set': None, 'pybind11::cast_error': None}
